@@ -321,7 +321,8 @@ class AceGroup(AceBase, Group):
         :param items: List of Ace objects (default self.items).
         :return: Last sequence number.
         """
-        items: LUAce = kwargs.get("items") or self._items
+        items: LUAce = kwargs["items"] if kwargs.get("items") is not None else self._items
+        items = [o for o in items if not isinstance(o, AceGroup) or o.items]  # empty group has no lines to number
         sequence: int = int(start)
         count = len(items)
 
